@@ -30,8 +30,9 @@
          unprotected `{99: [[…[nil]…]]}` (29 nested arrays) satisfies every hypothesis with depth
          3 for 4, the library signs and encodes the message (`exDeepSB`, 55 bytes after the tag),
          `UnmarshalCBOR` REFUSES it (nesting 33 > 32).  Same encoder/decoder asymmetry as
-         `NestedBuckets.sign1_wire_nested_needs_depth2` (the encoder has no depth limit, the
-         decoder has `MaxNestedLevels` 32), one more place where it shows.
+         `NestedBuckets.sign1_wire_nested_needs_depth2` (the decoder has `MaxNestedLevels` 32
+         counted from the message; the unprotected encoder's own gate, headers.go:256, counts
+         from the bucket's map and lets 1 + 29 levels pass), one more place where it shows.
     2. C01.countersignature_wire_nested = `countersignature_wire_flat`, every parent kind, with
          `NestedMap` / `NestedMapAt 2`; additionally names the decoded header maps.
     3. C12.henv_closed_nested           = `henv_closed_flat` with nested values in the caller's
@@ -1523,7 +1524,8 @@ theorem exHdA_mpU : marshalUnprotected exHdA = .ok [0xa1, 0x18, 0x63, 0x82, 0x01
   simp [marshalUnprotected, exHdA, GoVal.modelledPairs, GoVal.modelled, GoVal.modelledList,
     encodeBucket, encCfg, validateHeaderParameters, validateLoop, normalizeLabel, wrap64,
     checkParam, lbl, encodePairs, encodeAny, encodeList, encInt, encHead, HW.shortest, headBytes,
-    sortPairs_one, concatPairs]
+    sortPairs_one, concatPairs, wellformedNoTags, parseTop, fuelFor, parseItem, parseItems,
+    parsePairs, parseHead, maxNested, maxElems]
 
 theorem exHdA_marshal : exHdA.marshal
     = .ok ([0x43, 0xa1, 0x01, 0x26], [0xa1, 0x18, 0x63, 0x82, 0x01, 0x81, 0x02]) := by
@@ -1770,7 +1772,8 @@ theorem exN_marshal_cleared (m : Sign1Msg) (hd : Sign1.unmarshal true exBN = .ok
     simp [marshalUnprotected, exUmN, GoVal.modelledPairs, GoVal.modelled, GoVal.modelledList,
       encodeBucket, encCfg, validateHeaderParameters, validateLoop, normalizeLabel, wrap64,
       checkParam, lbl, encodePairs, encodeAny, encodeList, encInt, encHead, HW.shortest,
-      headBytes, sortPairs_one, concatPairs]
+      headBytes, sortPairs_one, concatPairs, wellformedNoTags, parseTop, fuelFor, parseItem, parseItems,
+    parsePairs, parseHead, maxNested, maxElems]
   simp [Sign1.marshal, Sign1.content, Hdrs.marshal, hP, hU, hiv, blen, bind, Out.bind, exBN',
     optBytesEnc, encBstr, encHead, HW.shortest, headBytes]
 
@@ -1838,12 +1841,14 @@ def exDeepSU : Bytes := 0xa1 :: 0x18 :: 0x63 :: (List.replicate 29 0x81 ++ [0xf6
 
 theorem exHdDeep_mpP : marshalProtected exHdDeep = .ok [0x43, 0xa1, 0x01, 0x26] := C01.exF_mpP
 
+set_option maxRecDepth 8192 in
 theorem exHdDeep_mpU : marshalUnprotected exHdDeep = .ok exDeepSU := by
   simp [marshalUnprotected, exHdDeep, exDeepSU, GoVal.modelledPairs, GoVal.modelled,
     nestArr_modelled, encodeBucket,
     encCfg, validateHeaderParameters, validateLoop, normalizeLabel, wrap64, checkParam, lbl,
     encodePairs, nestArr_enc, encodeAny, encInt, encHead, HW.shortest, headBytes, sortPairs_one,
-    concatPairs]
+    concatPairs, wellformedNoTags, parseTop, fuelFor, parseItem, parseItems,
+    parsePairs, parseHead, maxNested, maxElems]
 
 theorem exHdDeep_marshal : exHdDeep.marshal = .ok ([0x43, 0xa1, 0x01, 0x26], exDeepSU) := by
   have hiv : ensureIV exHdDeep.p exHdDeep.u = true := by
@@ -1919,7 +1924,9 @@ open NestedBuckets NestedClosures NestedExamples
     satisfies every hypothesis with depth 3 in place of 4 (so the same headers make the round
     trip as a stand-alone COSE_Countersignature or in a COSE_Sign1: `NestedMapAt 2`); the
     library signs and encodes the message, and `UnmarshalCBOR` refuses the bytes (nesting level
-    33 > 32).  The encoder has no depth limit; the decoder has `MaxNestedLevels` 32. -/
+    33 > 32).  The decoder has `MaxNestedLevels` 32 counted from the message; the gate in
+    `UnprotectedHeader.MarshalCBOR` (headers.go:256) applies the same limit to the slot's bucket
+    alone, which has 30 levels (`C08.unprotected_depth_gate`). -/
 theorem signmsg_wire_nested_needs_depth4 :
     (exHdDeep.rawP = none ∧ exHdDeep.rawU = none ∧ NestedMap exHdDeep.p ∧
       NestedMapAt 3 exHdDeep.u ∧ (∀ e ∈ exHdDeep.p, UintOK e.2) ∧ (∀ e ∈ exHdDeep.u, UintOK e.2) ∧
